@@ -24,11 +24,14 @@ func c22Implied(v ssa.Value, depth int) []c21Fact {
 	if depth > 6 {
 		return []c21Fact{{v, true}}
 	}
-	switch x := v.(type) {
-	case *ssa.UnOp:
-		if x.Op == token.NOT {
-			return []c21Fact{{x.X, false}}
+	if w, flip := c21StripNot(v); w != v {
+		// !x, x == false, x != true …
+		if flip {
+			return c22ImpliedFalse(w, depth+1)
 		}
+		return c22Implied(w, depth+1)
+	}
+	switch x := v.(type) {
 	case *ssa.Phi:
 		blk := x.Block()
 		var facts []c21Fact
@@ -63,7 +66,52 @@ func c22ImpliedIf(cond ssa.Value, truth bool, depth int) []c21Fact {
 	if truth {
 		return c22Implied(cond, depth)
 	}
-	return []c21Fact{{cond, false}}
+	return c22ImpliedFalse(cond, depth)
+}
+
+// c22ImpliedFalse lists the branch facts implied by boolean value v being
+// false. A value-context `a || b || c` is a φ whose edges are the constant true
+// from every short-circuit exit and the last operand otherwise: it is false only
+// when every operand is false (De Morgan: `!(a || b)` ≡ `!a && !b`).
+func c22ImpliedFalse(v ssa.Value, depth int) []c21Fact {
+	if depth > 6 {
+		return []c21Fact{{v, false}}
+	}
+	if w, flip := c21StripNot(v); w != v {
+		if flip {
+			return c22Implied(w, depth+1)
+		}
+		return c22ImpliedFalse(w, depth+1)
+	}
+	x, ok := v.(*ssa.Phi)
+	if !ok {
+		return []c21Fact{{v, false}}
+	}
+	blk := x.Block()
+	var facts []c21Fact
+	var rest []ssa.Value
+	for i, e := range x.Edges {
+		if cb, ok := c21ConstBool(e); ok {
+			if !cb {
+				return []c21Fact{{v, false}} // an `&&` shape: not a disjunction
+			}
+			pred := blk.Preds[i]
+			iff, ok := pred.Instrs[len(pred.Instrs)-1].(*ssa.If)
+			if !ok {
+				return []c21Fact{{v, false}}
+			}
+			cond, flip := c21StripNot(iff.Cond)
+			// the edge pred→blk carries `true`; v false ⇒ the other edge was taken
+			takenTrue := pred.Succs[0] != blk
+			facts = append(facts, c22ImpliedIf(cond, takenTrue != flip, depth+1)...)
+			continue
+		}
+		rest = append(rest, e)
+	}
+	if len(rest) != 1 {
+		return []c21Fact{{v, false}}
+	}
+	return append(facts, c22ImpliedFalse(rest[0], depth+1)...)
 }
 
 // c22CaseIf finds the If instruction whose true edge implies `test` == true.
@@ -307,10 +355,19 @@ func runC22(c *Ctx) {
 					}
 				}
 			case *ssa.BinOp:
-				if x.Op != token.NEQ || !c21IsNilConst(x.Y) {
+				// GoFunctions[name] != nil, either operand order
+				if x.Op != token.NEQ {
 					continue
 				}
-				if lk, ok := x.X.(*ssa.Lookup); ok && isGlobal(lk.X, "GoFunctions") && !lk.CommaOk {
+				tested := x.X
+				switch {
+				case c21IsNilConst(x.Y):
+				case c21IsNilConst(x.X):
+					tested = x.Y
+				default:
+					continue
+				}
+				if lk, ok := tested.(*ssa.Lookup); ok && isGlobal(lk.X, "GoFunctions") && !lk.CommaOk {
 					if _, isC := c21ConstString(lk.Index); !isC {
 						tests["builtin"] = &c22Test{kind: "builtin", val: x, name: lk.Index, pos: x.Pos()}
 						dup["builtin"]++
@@ -533,7 +590,7 @@ func runC22(c *Ctx) {
 				if c21IsCallTo(call, mx("lang/parameters"), "Parameters", "Prepend") && len(args) == 2 {
 					if bse, ow, f, ok := c21Field(args[0]); ok && ow == c21ProcessT && f == "Parameters" && c21Origin(bse) == ssa.Value(proc) {
 						nPre++
-						if sl, ok := args[1].(*ssa.Slice); ok && sl.X == ssa.Value(get) && sl.High == nil && sl.Low != nil {
+						if sl, ok := args[1].(*ssa.Slice); ok && sl.X == ssa.Value(get) && (sl.High == nil || c22IsLenOf(sl.High, get)) && sl.Max == nil && sl.Low != nil {
 							if k, ok := c21ConstInt(sl.Low); ok && k == 1 {
 								okPre = true
 							}
@@ -547,6 +604,16 @@ func runC22(c *Ctx) {
 	}
 	c.MinCount("R22a", "membership tests in executeProcess", len(tests), 4)
 	c.MinCount("R22c", "alias arms", len(aliasArm), 1)
+}
+
+// c22IsLenOf: v is len(x).
+func c22IsLenOf(v, x ssa.Value) bool {
+	call, ok := v.(*ssa.Call)
+	if !ok {
+		return false
+	}
+	bi, ok := call.Common().Value.(*ssa.Builtin)
+	return ok && bi.Name() == "len" && len(call.Common().Args) == 1 && call.Common().Args[0] == x
 }
 
 var c21KeySetGlobal = c21KeySet{}
